@@ -155,10 +155,11 @@ def c19(res, tier, seed):
     res.exhaustive = True
     replay_tour(res, b, "onceinit", tour, key=lambda e: ["gated", e["g"], e["flag0"], [s["at"] + str(s["obs"]) for s in e["steps"]][-3:]])
     first_use_runs(res, b, seed, 6 if tier == "quick" else 60)
-    if tier != "quick":
-        br = build_harness(("conc",), race=True)
-        first_use_runs(res, br, seed + 7, 12, env={"GORACE": "halt_on_error=1 exitcode=66"}, label="-race")
-        res.notes.append("12 fresh -race processes of concurrent first use: a DATA RACE report is a violation")
+    # the race detector is a sensor of the conformance harness: a DATA RACE report during concurrent first use is a violation
+    br = build_harness(("conc",), race=True)
+    nrace = 2 if tier == "quick" else 12
+    first_use_runs(res, br, seed + 7, nrace, env={"GORACE": "halt_on_error=1 exitcode=66"}, label="-race")
+    res.notes.append("%d fresh -race processes of concurrent first use" % nrace)
     res.rule = ("gated: TLC enumerates every interleaving of 2 goroutines through MessageInfo.init/initOnce (flag initially clear or set); every "
                 "transition is replayed on real goroutines parked at verifhook gates on a message type not used before in the process, comparing "
                 "the flag value / table completeness observed at every step; free: fresh processes in which 2-32 goroutines make concurrent first "
